@@ -34,11 +34,12 @@ theorem run_topo {g : Graph} {σ : List Nat} (h : isRun g σ = true) {t p : Nat}
   exact ⟨List.mem_append_left _ hpm, pos_prefix_lt hpm hn⟩
 
 /-- **order, invariant 2 (borrowers first)**: in any run, when a node that takes a non-Copy value
-    by value is placed, every node that borrows that value has been placed strictly earlier.
+    by value is placed, every node that borrows that value — directly, or by using a value that
+    holds a reference to it — has been placed strictly earlier.
     This is what `is_blocked` enforces; it holds for every traversal order. -/
 theorem run_borrowersFirst {g : Graph} {σ : List Nat} (h : isRun g σ = true) {d c b : Nat}
     (hc : c ∈ σ) (hcons : c ∈ g.consumers d) (hcopy : (g.node d).copy = false)
-    (hb : b ∈ g.borrowers d) : b ∈ σ ∧ pos σ b < pos σ c := by
+    (hb : b ∈ allBorrowers g d) : b ∈ σ ∧ pos σ b < pos σ c := by
   obtain ⟨pre, post, rfl⟩ := mem_split hc
   obtain ⟨hcp, hn⟩ := isRun_split h pre c post rfl
   unfold canPlace at hcp
@@ -112,7 +113,7 @@ theorem safe_of_run_holdersFirst {g : Graph} {σ A : List Nat}
         simp only [borrowers, outEdges, List.mem_map, List.mem_filter, beq_iff_eq, Bool.or_eq_true]
         refine ⟨e, ⟨⟨hemem, rfl⟩, ?_⟩, hedst⟩
         rcases hk with hk | hk <;> simp [hk]
-      exact (run_borrowersFirst hrun hc hcons hcopy htb).2
+      exact (run_borrowersFirst hrun hc hcons hcopy (List.mem_append_left _ htb)).2
   · exact of_decide_eq_true hhold
 
 theorem holdersFirst_of_captureFree {g : Graph} (σ A : List Nat) (h : captureFree g = true) :
@@ -121,6 +122,83 @@ theorem holdersFirst_of_captureFree {g : Graph} (σ A : List Nat) (h : captureFr
   apply decide_eq_true
   intro t _ _ e _ _ w _ _ hh
   simp [holds, held_of_captureFree h] at hh
+
+/-- no `&mut` borrow targets a value that some other value holds a reference to (pavexc rejects
+    such graphs in `move_while_borrowed`: "tried to borrow mutably while borrowed immutably"). -/
+def exclClean (g : Graph) : Bool :=
+  g.edges.all (fun e => e.kind != .excl || (List.range g.size).all (fun w => !holds g w e.src))
+
+/-- **order, invariant 3 (holders first)**: since the ordering step counts the users of a value
+    that holds a reference to `d` among the borrowers of `d`, every run places them before the
+    node that takes `d` by value — for every traversal order. -/
+theorem run_holdersFirst {g : Graph} {σ A : List Nat} (hrun : isRun g σ = true)
+    (hwf : g.wellFormed = true) (hex : exclClean g = true) : holdersFirst g σ A = true := by
+  unfold holdersFirst
+  apply decide_eq_true
+  intro t ht _ e he hk w hw _ hh _ u hu _ huse
+  have hemem : e ∈ g.edges := by
+    simp only [inEdges, List.mem_filter] at he; exact he.1
+  have hedst : e.dst = t := by
+    simp only [inEdges, List.mem_filter, beq_iff_eq] at he; exact he.2
+  rcases hk with ⟨hmove, hcopy⟩ | hexcl
+  · -- `t` takes `e.src` by value
+    have htc : t ∈ g.consumers e.src := by
+      simp only [consumers, outEdges, List.mem_map, List.mem_filter, beq_iff_eq]
+      exact ⟨e, ⟨⟨hemem, rfl⟩, by simp [hmove]⟩, hedst⟩
+    by_cases hud : u = e.src
+    · -- the value itself precedes its consumer
+      rw [hud]
+      exact (run_topo hrun ht (pred_of_inEdge he)).2
+    · -- `u` uses `w`, which holds a reference to `e.src`: it is one of its borrowers
+      have hub : u ∈ allBorrowers g e.src := by
+        apply List.mem_append_right
+        simp only [users, outEdges, List.mem_map, List.mem_filter, beq_iff_eq] at huse
+        obtain ⟨e', ⟨⟨he'mem, he'src⟩, he'data⟩, he'dst⟩ := huse
+        have husz : u < g.size := by
+          unfold wellFormed at hwf
+          rw [List.all_eq_true] at hwf
+          have := hwf e' he'mem
+          simp only [Bool.and_eq_true, decide_eq_true_eq] at this
+          rw [← he'dst]; exact this.2
+        simp only [holderUsers, List.mem_filter, List.mem_range, Bool.and_eq_true, bne_iff_ne, ne_eq,
+          List.any_eq_true]
+        refine ⟨husz, hud, e', ?_, he'data, ?_⟩
+        · simp only [inEdges, List.mem_filter, beq_iff_eq]; exact ⟨he'mem, he'dst⟩
+        · rw [he'src]; exact hh
+      exact (run_borrowersFirst hrun ht htc hcopy hub).2
+  · -- `&mut`: excluded by `exclClean`
+    exfalso
+    unfold exclClean at hex
+    rw [List.all_eq_true] at hex
+    have := hex e hemem
+    simp only [hexcl, bne_self_eq_false, Bool.false_or, List.all_eq_true, Bool.not_eq_true'] at this
+    have hwsz : w < g.size := by
+      -- a node that holds something has captures, hence is a real node
+      apply Classical.byContradiction
+      intro hnot
+      have : held g g.size w = [] := by
+        cases hs : g.size with
+        | zero => rfl
+        | succ n =>
+          have hnode : g.node w = {} := by
+            unfold Graph.node
+            have : ¬ w < g.nodes.length := hnot
+            simp [List.getD, this]
+          simp [held, hnode]
+      simp [holds, this] at hh
+    have := this w (List.mem_range.mpr hwsz)
+    rw [hh] at this
+    cases this
+
+/-- **C01 (ordering, full)**: for every well-formed call graph that passed the `&mut` check, every
+    order the ordering step can produce — whatever traversal strategy — is ownership-safe on every
+    control-flow path on which each non-Copy value has a single by-value consumer, *whatever the
+    components capture*. (After fix: capture-aware ordering. Before it this statement was false:
+    see `witness_not_a_run_anymore`.) -/
+theorem C01_order_safe {g : Graph} {σ A : List Nat}
+    (hrun : isRun g σ = true) (hA : predClosed g A = true) (hone : oneMover g A = true)
+    (hwf : g.wellFormed = true) (hex : exclClean g = true) : OwnSafe g σ A :=
+  safe_of_run_holdersFirst hrun hA hone hwf (run_holdersFirst hrun hwf hex)
 
 /-- **C01, proved part**: for call graphs whose components do not keep borrows alive in their
     outputs, every order the ordering step can produce is ownership-safe on every control-flow
@@ -131,7 +209,7 @@ theorem C01_partial {g : Graph} {σ A : List Nat}
     (hwf : g.wellFormed = true) (hcf : captureFree g = true) : OwnSafe g σ A :=
   safe_of_run_holdersFirst hrun hA hone hwf (holdersFirst_of_captureFree σ A hcf)
 
-/-- The full-strength statement: *whatever* the components capture. -/
+/-- The full-strength statement: *whatever* the components capture and borrow. -/
 def C01_statement : Prop :=
   ∀ (g : Graph) (σ A : List Nat), g.wellFormed = true → isRun g σ = true → isComplete g σ = true →
     predClosed g A = true → oneMover g A = true → OwnSafe g σ A
@@ -143,16 +221,29 @@ def witnessGraph : Graph :=
     edges := [⟨3, 0, .move⟩, ⟨4, 3, .move⟩, ⟨5, 4, .shared⟩, ⟨2, 0, .move⟩, ⟨5, 2, .move⟩,
               ⟨1, 0, .move⟩, ⟨4, 1, .shared⟩, ⟨0, 6, .move⟩] }
 
-/-- the order pavexc emits for it: a, c, b, f, e, h, into_response. -/
+/-- the order pavexc used to emit for it: a, c, b, f, e, h, into_response (E0505). -/
 def witnessOrder : List Nat := [5, 4, 2, 1, 3, 0, 6]
 
-/-- **[finding]** The full statement is false of the faithful model: `order`'s guard admits the
-    order pavexc really emits for the witness (`b(v0)` moves `A` while `C<'_>` still borrows it). -/
+/-- **[fixed finding]** the order that made rustc reject the SDK is ownership-unsafe, and is no
+    longer an order the ordering step can produce; the model's own order for the witness is safe. -/
+theorem witness_not_a_run_anymore :
+    ownCheck witnessGraph witnessOrder (List.range 7) = false ∧ isRun witnessGraph witnessOrder = false ∧
+    (order witnessGraph).map (fun σ => ownCheck witnessGraph σ (List.range 7)) = some true := by
+  decide
+
+/-- What remains outside the ordering theorem: `&mut` borrows of captured values are not ordered
+    by this step (they are rejected earlier, by `move_while_borrowed`, which is validated per
+    program and not mirrored in Lean) — the full statement without `exclClean` is false of the
+    ordering step alone. Nodes: 0=h(U,M) 1=u(C)->U 2=m(&mut A)->M 3=c(&A)->C<'_> 4=a 5=into_response. -/
+def exclWitness : Graph :=
+  { nodes := [{}, {}, {}, { tied := [4], direct := [4] }, {}, {}],
+    edges := [⟨1, 0, .move⟩, ⟨2, 0, .move⟩, ⟨3, 1, .move⟩, ⟨4, 2, .excl⟩, ⟨4, 3, .shared⟩, ⟨0, 5, .move⟩] }
+
 theorem C01_statement_false : ¬ C01_statement := by
   intro h
-  have hs := h witnessGraph witnessOrder (List.range 7) (by decide) (by decide) (by decide)
+  have hs := h exclWitness [4, 3, 2, 1, 0, 5] (List.range 6) (by decide) (by decide) (by decide)
     (by decide) (by decide)
-  have : ownCheck witnessGraph witnessOrder (List.range 7) = true := (ownCheck_iff _ _ _).mpr hs
+  have : ownCheck exclWitness [4, 3, 2, 1, 0, 5] (List.range 6) = true := (ownCheck_iff _ _ _).mpr hs
   revert this
   decide
 
@@ -163,8 +254,8 @@ example : let g : Graph := { nodes := [{}, {}, {}, {}],
     isRun g [0, 1, 2, 3] = true ∧ isRun g [0, 2, 1, 3] = false ∧ predClosed g [0, 1, 2, 3] = true ∧
     oneMover g [0, 1, 2, 3] = true ∧ g.wellFormed = true ∧ captureFree g = true ∧
     order g = some [0, 1, 2, 3] := by decide
--- and a legal alternative order exists for the witness graph, which the checker accepts:
-example : isRun witnessGraph [5, 4, 1, 3, 2, 0, 6] = true ∧
+-- the hypotheses of `C01_order_safe` are met by the witness graph and its legal orders:
+example : isRun witnessGraph [5, 4, 1, 3, 2, 0, 6] = true ∧ exclClean witnessGraph = true ∧
     ownCheck witnessGraph [5, 4, 1, 3, 2, 0, 6] (List.range 7) = true := by decide
 
 end Pxv.CG
